@@ -22,6 +22,67 @@ func genFormats(c *Ctx) error {
 	if c.Tier == "thorough" {
 		n = 6000
 	}
+	// directed: what follows the last valid record is not a header but is readable — the stale tail
+	// of an earlier, larger transaction in a PERSIST journal (its header zeroed at commit), or a
+	// second-segment header that reads back as zeros; the interrupted transaction must roll back
+	// to the committed image with the committed size
+	for _, ps := range []int{512, 1024, 4096} {
+		for _, variant := range []string{"persist-stale-tail", "persist-stale-tail-grow", "zeroed-second-header"} {
+			cs := c.Begin()
+			do := func(op string) string { c.Count("op." + strings.SplitN(op, " ", 2)[0]); return cs.Do(op) }
+			p := newPager(r, ps, do)
+			p.journalMode = "PERSIST"
+			if variant == "zeroed-second-header" {
+				p.journalMode = "DELETE"
+			}
+			do("open primary")
+			do("createdb")
+			all := txShape{newN: 8, pages: map[int]bool{}, commit: true}
+			for pg := 1; pg <= 8; pg++ {
+				all.pages[pg] = true
+			}
+			p.journalTx(all, 0, 0)
+			big := txShape{newN: 8, pages: map[int]bool{1: true, 2: true, 3: true, 4: true, 5: true, 6: true, 7: true}, commit: true}
+			p.journalTx(big, 0, 0)
+			hot := *p
+			hot.do = func(op string) string {
+				if op == "jrm" || op == "jtr" || op == "jw 0 z28" || strings.HasPrefix(op, "dbt ") || strings.HasPrefix(op, "unlock") {
+					return "skipped" // the process dies before finalising
+				}
+				return do(op)
+			}
+			switch variant {
+			case "persist-stale-tail":
+				hot.journalTx(txShape{newN: 8, pages: map[int]bool{1: true, 2: true}, commit: true}, 0, 0)
+			case "persist-stale-tail-grow":
+				hot.journalTx(txShape{newN: 10, pages: map[int]bool{1: true, 9: true, 10: true}, commit: true}, 0, 0)
+			default:
+				hot.journalTx(txShape{newN: 8, pages: map[int]bool{1: true, 2: true, 3: true, 4: true}, commit: true}, 2, 0)
+				szs := do("fsize journal")
+				if sz, _ := strconv.Atoi(szs); sz > 0 {
+					// the second segment's header sector reads back as zeros (written, not yet durable)
+					second := ((512+2*(ps+8)-1)/512 + 1) * 512
+					do(fmt.Sprintf("corrupt journal zero %d 28", second))
+				}
+			}
+			res := do("reopen")
+			c.Count("reopen." + firstWords(res, 2))
+			if variant != "zeroed-second-header" {
+				cs.Do("expect-recovered")
+				cs.Do(p.refLine())
+				c.Count("clean")
+			} else {
+				cs.Do("ref-unknown")
+			}
+			do("state")
+			do("raw")
+			if res == "ok" {
+				do("ltx")
+			}
+			cs.End()
+			c.Nontrivial(fmt.Sprintf("directed|%s|%d", variant, ps))
+		}
+	}
 	for i := 0; i < n; i++ {
 		ps := pick(r, []int{512, 1024, 4096})
 		cs := c.Begin()
@@ -103,6 +164,13 @@ func genFormats(c *Ctx) error {
 				if r.Bool() && sz > 40 {
 					off = r.Intn(40) // header fields
 				}
+				if file == "journal" && off >= 16 && off <= 18 {
+					// the high bytes of the original database size: a flipped bit there makes the
+					// rollback extend the database to tens of thousands of pages — the real code does
+					// that with a sparse file in no time, the byte-level model would need minutes
+					// (crafted sizes up to 4000 pages are covered by the `hdr16=` cases)
+					off = 19
+				}
 				do(fmt.Sprintf("corrupt %s flip %d %d", file, off, 1<<uint(r.Intn(8))))
 				sig += fmt.Sprintf("|flip%d", off)
 			case 5, 6: // zeroed region, header fields first
@@ -125,7 +193,7 @@ func genFormats(c *Ctx) error {
 					// recompute the header checksum so that the header is accepted
 					cs.Do("walfix")
 				} else {
-					fld := pick(r, [][2]int{{20, 0}, {20, 1}, {20, 7}, {20, 513}, {20, 1 << 30}, {24, 0}, {24, 100}, {24, 1 << 20}, {8, 0xffffffff}, {8, 1 << 20}, {16, 0}, {16, 1 << 30}})
+					fld := pick(r, [][2]int{{20, 0}, {20, 1}, {20, 7}, {20, 513}, {20, 1 << 30}, {24, 0}, {24, 100}, {24, 1 << 20}, {8, 0xffffffff}, {8, 1 << 20}, {16, 0}, {16, 4000}})
 					do(fmt.Sprintf("corrupt journal put %d %08x", fld[0], fld[1]))
 					sig += fmt.Sprintf("|hdr%d=%d", fld[0], fld[1])
 				}
